@@ -23,7 +23,20 @@ type c07Case struct {
 	Patch  string `json:"patch"`
 	File   string `json:"file"`
 	Family string `json:"family"`
+	Name   string `json:"name,omitempty"` // file name (default f.go)
 }
+
+func (cs *c07Case) name() string {
+	if cs.Name != "" {
+		return cs.Name
+	}
+	return "f.go"
+}
+
+// c07LongName is a base name too long for a temporary sibling of the form
+// ".<name>.gopatch-<n>" to exist: whatever gopatch does to write such a file
+// (or to refuse), what ends up on disk with exit status 0 must parse.
+var c07LongName = strings.Repeat("n", 236) + ".go"
 
 // Templates that put captured code where it may not fit.
 var c07Patches = []string{
@@ -65,6 +78,11 @@ var c07Patches = []string{
 	"@@\nvar x expression\n@@\n-var v = check(x)\n+type v x\n",
 	"@@\nvar x expression\n@@\n-var v = check(x)\n+func v() x\n",
 	"@@\nvar x expression\n@@\n-check(x)\n+x\n+...\n",
+	// rewrites that make the file shorter
+	"@@\nvar x, y expression\n@@\n-pair(x, y)\n+x\n",
+	"@@\nvar x expression\n@@\n-check(x)\n+x\n",
+	"@@\nvar x expression\n@@\n-_ = check(x)\n",
+	"@@\n@@\n-check(...)\n+c()\n",
 }
 
 var c07Fillers = []string{
@@ -252,7 +270,7 @@ func evalC07(cs *c07Case) (sig, msg string, hit bool, judged bool) {
 		return "", "", false, false
 	}
 	// library API
-	ra := run.API("p.patch", []byte(cs.Patch), "f.go", []byte(cs.File))
+	ra := run.API("p.patch", []byte(cs.Patch), cs.name(), []byte(cs.File))
 	if ra.Failed() {
 		return "", "foreign:C08", false, false
 	}
@@ -276,11 +294,11 @@ func evalC07(cs *c07Case) (sig, msg string, hit bool, judged bool) {
 
 	for _, mode := range c07Modes {
 		dir, cleanup := run.TempDir("c07-")
-		target := filepath.Join(dir, "f.go")
+		target := filepath.Join(dir, cs.name())
 		_ = os.WriteFile(filepath.Join(dir, "p.patch"), []byte(cs.Patch), 0o644)
 		_ = os.WriteFile(target, []byte(cs.File), 0o644)
 		args := append([]string{"-p", "p.patch"}, mode.Args...)
-		args = append(args, "f.go")
+		args = append(args, cs.name())
 		r := run.CLI(dir, nil, args...)
 		after, _ := os.ReadFile(target)
 		cleanup()
@@ -340,7 +358,7 @@ func evalC07(cs *c07Case) (sig, msg string, hit bool, judged bool) {
 		if r.Exit != 1 {
 			return "", "foreign:C08 exit status", hit, judged
 		}
-		if !strings.Contains(string(r.Stderr), "f.go") {
+		if !strings.Contains(string(r.Stderr), cs.name()) {
 			return "error-does-not-name-file:" + mode.Name, fmt.Sprintf("gopatch %s exits %d but stderr does not name the file: %q\n%s", strings.Join(mode.Args, " "), r.Exit, trunc(string(r.Stderr), 400), show()), hit, judged
 		}
 		if string(after) != cs.File {
@@ -372,6 +390,10 @@ func TestC07(t *testing.T) {
 				return
 			}
 			cs = &c07Case{Patch: mcs.Patch, File: mcs.Host, Family: "mined"}
+		}
+		if rapid.IntRange(0, 5).Draw(rt, "longName") == 0 {
+			cs.Name = c07LongName
+			cs.Family += "+long-name"
 		}
 		sig, msg, hit, judged := evalC07(cs)
 		if !judged {
